@@ -5,6 +5,10 @@
 //!   dv list
 
 mod common;
+mod compress;
+mod containers;
+mod encx;
+mod enumx;
 mod evo;
 mod graph;
 mod hostile;
@@ -118,7 +122,12 @@ fn main() {
                 "C09" => streams::c09(&mut ctx, &mut acc),
                 "C10" => graph::c10(&mut ctx, &mut acc),
                 "C11" => prims::c11(&mut ctx, &mut acc),
+                "C12" => containers::c12(&mut ctx, &mut acc),
+                "C13" => enumx::c13(&mut ctx, &mut acc),
+                "C14" => enumx::c14(&mut ctx, &mut acc),
                 "C15" => prims::c15(&mut ctx, &mut acc),
+                "C16" => compress::c16(&mut ctx, &mut acc),
+                "C17" => encx::c17(&mut ctx, &mut acc),
                 "C08" => rt::c08(&mut ctx, &mut acc),
                 other => {
                     eprintln!("unknown check {other}");
